@@ -22,6 +22,12 @@ type I1 interface {
 	M1()
 }
 
+// E0 is a concrete type implementing error; model ids: E0 = 6, error = 12.
+// They are only used for Convert to the interface type error.
+type E0 int
+
+func (e E0) Error() string { return fmt.Sprintf("E0(%d)", int(e)) }
+
 func (T0) M0() {}
 func (T1) M0() {}
 func (T1) M1() {}
@@ -61,6 +67,13 @@ func init() {
 		tidOfType[t] = id
 	}
 	tyOf[30], tyOf[31] = dupType(), dupType2()
+	tyOf[6] = reflect.TypeOf(E0(0))
+	tyOf[12] = reflect.TypeOf((*error)(nil)).Elem()
+	for _, id := range []int{6, 12} {
+		tidOfString[tyOf[id].String()] = id
+		tidOfType[tyOf[id]] = id
+	}
+	carrier[12] = 6
 	tidOfType[tyOf[30]], tidOfType[tyOf[31]] = 30, 31
 }
 
@@ -85,7 +98,8 @@ func universeTerm() string {
 			}
 		}
 	}
-	return fmt.Sprintf("(mkU [10; 11] %s)", slist(impl))
+	impl = append(impl, "(6,12)", "(12,12)")
+	return fmt.Sprintf("(mkU [10; 11; 12] %s)", slist(impl))
 }
 
 // mkVal builds a Go value of concrete type tid carrying serial.
